@@ -1431,9 +1431,37 @@ def gen_c02_large(rng):
         base["ops"] = [("fit", ds[:k], rs[:k], cx[:k]), ("pfit", ds[k:], rs[k:], cx[k:])]
     return {"base": base, "seed2": rng.randint(0, 10**9)}
 
+def gen_c02_wide(rng):
+    """many features (8-12), l2_lambda != 1, and arms that receive FEWER rows than features - one row at a time in part: whatever short-cut
+    the code takes for a rank-deficient batch (a low-rank update of the inverse, a skipped inversion) must still give the ridge regression"""
+    kind = rng.choice(gen.LIN_KINDS)
+    d = rng.randint(8, 12)
+    arms = rng.sample(range(0, 9), 3)
+    rare = arms[rng.randrange(3)]
+    n = rng.randint(d + 6, 3 * d)
+    others = [a for a in arms if a != rare]
+    ds = [rng.choice(others) for _ in range(n)]
+    for i in rng.sample(range(n), rng.randint(1, min(4, d - 1))):
+        ds[i] = rare
+    row = lambda: [float(rng.randint(-3, 3)) / 2.0 for _ in range(d)]
+    cx = [row() for _ in range(n)]
+    w = [rng.uniform(-1, 1) for _ in range(d)]
+    rew = lambda r: float(round(sum(a * b for a, b in zip(w, r)) + rng.uniform(-0.5, 0.5), 3))
+    ops = [("fit", ds, [rew(r) for r in cx], cx)]
+    for _ in range(rng.randint(0, 6)):                          # online updates of one or two rows
+        k = rng.randint(1, 2); c2 = [row() for _ in range(k)]
+        ops.append(("pfit", [rng.choice([rare, rare] + others) for _ in range(k)], [rew(r) for r in c2], c2))
+    hp = 0.0 if kind == "lingreedy" else (1e-9 if kind == "lints" else rng.choice([0.5, 1.0]))
+    base = {"arms": arms, "lp": (kind, hp, rng.choice([0.25, 0.5, 2.0, 4.0]), False, True), "np": None, "seed": rng.randint(0, 10**6),
+            "ops": ops, "label": "int", "mode": "tol", "reward_style": "float"}
+    return {"base": base, "seed2": rng.randint(0, 10**9)}
+
 def gen_c02(rng, tier):
-    if rng.random() < 0.04:
+    z = rng.random()
+    if z < 0.04:
         return gen_c02_large(rng)
+    if z < 0.12:
+        return gen_c02_wide(rng)
     base = gen.gen_ctx_case(rng, nps=["none"], lps=gen.LIN_KINDS, max_ops=5, reward_styles=["dyadic", "smallint", "float"], queries=False,
                             max_rows=30, fit_prob=0.05)
     lp = list(base["lp"])
